@@ -153,6 +153,19 @@ def step (st : St) (line : String) : St × String :=
       ({ st with tt := st.tt.store k ev mv d b,
                  ttLog := Spec.mkEntry k ev mv d b :: st.ttLog }, both "ok" "ok")
     | _, _, _, _, _ => (st, modelOnly "bad-op")
+  | ["tt.fill", k0, n, d] =>
+    match Driver.parseU64 k0, n.toNat?, d.toNat? with
+    | some k0, some n, some d =>
+      let rec go (i : Nat) (fuel : Nat) (tt : TT) (log : List Entry) : TT × List Entry :=
+        match fuel with
+        | 0 => (tt, log)
+        | fuel + 1 =>
+          let k := k0 + i.toUInt64
+          let ev : Int := ((i % 1000 : Nat) : Int)
+          go (i + 1) fuel (tt.store k ev none d .exact) (Spec.mkEntry k ev none d .exact :: log)
+      let (tt, log) := go 0 n st.tt st.ttLog
+      ({ st with tt := tt, ttLog := log }, both "ok" "ok")
+    | _, _, _ => (st, modelOnly "bad-op")
   | ["tt.get", k] =>
     match Driver.parseU64 k with
     | some k => (st, both (entryText (st.tt.retrieve k)) (entryText (Spec.logGet st.ttLog k)))
